@@ -53,3 +53,31 @@
         for f in failures.iter().take(5) { println!("FAILING INPUT: {}", f); }
         assert!(failures.is_empty());
     }
+
+    /// many words under one key: for every count n of indexed homographs of 東京 from 1 to 127 (the format's maximum) - with a non-indexed
+    /// 東京, a shorter and a longer key around them - lookup reports all n words, each once, and nothing else
+    #[test]
+    fn verif_oracle_homograph_counts() {
+        let mut failures = Vec::new();
+        for n in 1..=127usize {
+            let mut rows: Vec<(&str, bool)> = vec![("東", true), ("東京", false)];
+            for _ in 0..n { rows.push(("東京", true)); }
+            rows.push(("東京都", true));
+            let mut bldr = DictBuilder::new_system();
+            bldr.read_conn("1 1\n0 0 0\n".as_bytes()).unwrap();
+            bldr.read_lexicon(csv(&rows).as_bytes()).unwrap();
+            bldr.resolve().unwrap();
+            let mut bin = Vec::new();
+            bldr.compile(&mut bin).unwrap();
+            let dic = DictionaryLoader::read_system_dictionary(&bin).unwrap().to_loaded().unwrap();
+            let t = "東京都";
+            let mut got: Vec<(u8, u32, usize)> = dic.lexicon_set.lookup(t.as_bytes(), 0).map(|e| (e.word_id.dic(), e.word_id.word(), e.end)).collect();
+            got.sort();
+            let mut want: Vec<(u8, u32, usize)> = rows.iter().enumerate().filter(|(_, r)| r.1 && t.as_bytes().starts_with(r.0.as_bytes())).map(|(i, r)| (0u8, i as u32, r.0.len())).collect();
+            want.sort();
+            if got != want && failures.len() < 10 { failures.push(format!("{} indexed homographs of 東京: lookup(東京都, 0) reports {} entries {:?}..., the rows give {}", n, got.len(), got.iter().take(4).collect::<Vec<_>>(), want.len())); }
+        }
+        println!("verif_oracle_homograph_counts: 127 lexicons, {} failures", failures.len());
+        for f in failures.iter().take(5) { println!("FAILING INPUT: {}", f); }
+        assert!(failures.is_empty());
+    }
